@@ -42,6 +42,7 @@ DEFAULT_PROFILE = {
     "nonblocking": True,
     "policies": ["FIRST_AVAILABLE", "FIRST_AVAILABLE", "ROUND_ROBIN", "RANDOM", "const", "callable", "generator"],
     "pack": 2,            # out of 10 factories are pack/unpack lines
+    "split_fanin": 2,     # out of 10 pack lines with a splitter: a second pallet source feeds the splitter directly
     "max_layers": 2,
     "setup": True,
     "finite": 5,          # out of 10 factories have finite input
@@ -181,7 +182,36 @@ def decode_flow(g, p):
                     kinds += ["ContinuousConveyor", "SlottedConveyor"] * p.get("conveyor_weight", 1)
             edges.append(edge_spec(g, p, "E%d" % ne, u, v, kinds))
             ne += 1
-    return {"nodes": nodes, "edges": edges, "shape": "flow"}
+    spec = {"nodes": nodes, "edges": edges, "shape": "flow"}
+    machines = [(li, m["id"]) for li, L in enumerate(layers) for m in L if m["type"] == "Machine"]
+    if p.get("cycles") and machines and g.n(10) < p["cycles"]:
+        # the documentation allows loops and self-loops: rework edges from a machine back to itself or to a machine of
+        # the same / an earlier layer (Buffer or Fleet edges)
+        for _ in range(g.pick([1, 1, 2])):
+            lj, u = g.pick(machines)
+            back = [m for (li, m) in machines if li <= lj]
+            v = g.pick(back)
+            if sum(1 for e in edges if e["src"] == u) >= 4:
+                continue
+            be = edge_spec(g, p, "E%d" % ne, u, v, [k for k in p["edge_kinds"] if k in ("Buffer", "Fleet")] or ["Buffer"])
+            if be["kind"] == "Buffer":
+                # every cycle passes a rework edge: a strictly positive delay there keeps zero-time cycles (an item going
+                # round for ever within one instant - a Zeno model, not a library defect) out by construction
+                be["delay"] = delay_spec(g, zero=False)
+            else:
+                # a fleet at capacity departs without waiting: only a positive transit time keeps the cycle from being zero-time
+                if be.get("delay", 1) == 0:
+                    be["delay"] = 1
+                if be.get("transit", 0) == 0:
+                    be["transit"] = g.pick([0.5, 1, 0.3])
+            edges.append(be)
+            ne += 1
+            if g.chance(1, 2):      # otherwise the rework edge (highest index) is used only under congestion
+                next(n for n in nodes if n["id"] == u)["out_sel"] = "ROUND_ROBIN"
+            if g.chance(3, 4):      # any other in-edge policy waits for the (initially empty) rework edge in its turn
+                next(n for n in nodes if n["id"] == v)["in_sel"] = "FIRST_AVAILABLE"
+        spec["cyclic"] = True
+    return spec
 
 
 def decode_pack(g, p):
@@ -224,6 +254,17 @@ def decode_pack(g, p):
             nodes.append({"id": "K%d" % i, "type": "Sink", "setup": 0})
             edges.append(edge_spec(g, p, "E%d" % ne, "X0", "K%d" % i, ["Buffer"]))
             ne += 1
+        if p.get("split_fanin") and g.n(10) < p["split_fanin"]:
+            # the splitter also receives (empty) pallets straight from a second pallet source: in-edges fed by
+            # independent nodes, at a lower or a higher index than the combiner's
+            nodes.append(source_spec(g, p, "P1", item="pallet"))
+            e2 = edge_spec(g, p, "E%d" % ne, "P1", "X0", ["Buffer"])
+            ne += 1
+            if g.chance(1, 2):
+                pos = next(i for i, e in enumerate(edges) if e["src"] == "C0" and e["dst"] == "X0")
+                edges.insert(pos, e2)
+            else:
+                edges.append(e2)
     else:
         n_snk = g.pick([1, 2])
         for i in range(n_snk):
